@@ -49,6 +49,9 @@ type c14Case struct {
 	// Times: the whole call list is gone through that many times on the same interceptor (long-lived interceptors:
 	// hundreds of calls, long runs of refusals or of grants without anything else in between)
 	Times int `json:"times,omitempty"`
+	// StreamTimes: a group of operations that runs on one wrapped stream is repeated that many times inside the same
+	// handler invocation (a long-lived stream: hundreds of messages through one wrapper)
+	StreamTimes int `json:"stream_times,omitempty"`
 }
 
 func genC14(t *rapid.T) c14Case {
@@ -82,6 +85,12 @@ func genC14(t *rapid.T) c14Case {
 	})
 	c.Calls = rapid.SliceOfN(call, 1, 20).Draw(t, "calls")
 	c.Times = rapid.SampledFrom([]int{1, 1, 1, 1, 1, 1, 2, 10, 150, 400}).Draw(t, "times")
+	if c.Kind == "stream" {
+		c.StreamTimes = rapid.SampledFrom([]int{1, 1, 1, 1, 2, 30, 129, 257, 600}).Draw(t, "streamTimes")
+		if c.StreamTimes > 30 && c.Times > 10 {
+			c.Times = 2
+		}
+	}
 	if c.Times >= 150 && rapid.Bool().Draw(t, "storm") {
 		// a storm: every call is refused (or every call granted); what varies from call to call is the rest
 		g := rapid.Bool().Draw(t, "stormGrant")
@@ -476,8 +485,14 @@ func runC14(_ *testing.T, c c14Case) (out kit.Outcome) {
 			herr := runStream(liveInner, func(srv interface{}, ss grpc.ServerStream) error {
 				liveSS = ss
 				defer func() { liveSS = nil }()
-				for k := i; k < j && viol == nil; k++ {
-					viol = check(k)
+				reps := c.StreamTimes
+				if reps < 1 {
+					reps = 1
+				}
+				for rep := 0; rep < reps && viol == nil; rep++ {
+					for k := i; k < j && viol == nil; k++ {
+						viol = check(k)
+					}
 				}
 				last = errors.New("handler result")
 				return last
